@@ -7,12 +7,13 @@ import random
 from datetime import timedelta
 
 from .. import cli, env, kernel
-from ..harness import World, execute, params_snapshot, place_summary, probe, violation
+from ..harness import (World, consume_with_timeout, dropped_consume_results, execute, params_snapshot, place_summary,
+                       probe, violation)
 
 LEVEL = "exploration"
 PLAN = {
     "quick": {"mem": 1500, "redis": 500, "rabbit": 500},
-    "thorough": {"mem": 150000, "redis": 40000, "rabbit": 40000},
+    "thorough": {"mem": 3000, "redis": 1000, "rabbit": 1000},
 }
 BUDGET = {"quick": 55, "thorough": 900}
 RULE = (
@@ -155,6 +156,7 @@ async def _main(sim, sc, out):
     finished = [False]
     finishing: set = set()
     finished_consumers: set = set()
+    dropped_seen: set = set()
     settle_until: dict = {}
     deliv = [0]
 
@@ -307,13 +309,22 @@ async def _main(sim, sc, out):
                 if ent is None:
                     continue
                 cons, sop = ent
-                try:
-                    res = await asyncio.wait_for(_consume(cons), timeout=op["timeout_us"] / 1e6)
-                except asyncio.TimeoutError:
+                res = await consume_with_timeout(cons, op["timeout_us"] / 1e6)
+                if res is None:
                     probe(out, "consume-timed-out")
+                    dropped_now = [d_ for d_ in dropped_consume_results(rec) if d_ in model and d_ not in dropped_seen]
                     # a cancelled consume may leave one message held by that consumer: its finish() returns it
                     slots.pop(op["slot"], None)
                     await _finish(ci, cons, holding)
+                    insp_d = world.inspect()
+                    for did in dropped_now:
+                        dropped_seen.add(did)
+                        if any(p_["place"] == "held" for p_ in insp_d.get(did, [])) and model.get(did, {}).get("state") != "held":
+                            # known finding: the middleware wrapper dropped the result of a completed consume();
+                            # the message stays taken although nobody received it and its consumer is finished
+                            V.append(violation("consume-result-dropped", f"C01/{b}/cancelled-consume-dropped-a-taken-message",
+                                               id=did))
+                            model.pop(did, None)  # quarantined
                     continue
                 key, payload, params = res
                 stats["consumed"] += 1
@@ -437,6 +448,10 @@ async def _main(sim, sc, out):
                 continue
             places = sorted(p["place"] for p in insp.get(id_, []))
             if places == ["held"]:
+                ex = insp[id_][0].get("extra") or {}
+                if broker == "mem" and e.get("via") is cons and id_ in own and ex.get("by") not in (None, cons._sim_who):
+                    # returned by this finish() and already taken again by another consumer
+                    model[id_] = dict(e, state=e["prev_state"], holder=None)
                 continue
             if e.get("via") is cons and id_ in own:
                 back = dict(e, state=e["prev_state"], holder=None)
